@@ -52,7 +52,10 @@ RULE_ADDED = (
               'rom the file, dict unchanged. '
               ' '
               "Round 16: certifier names that are parts of the root's name, or it in another ca"
-              'se / padded / doubled. ')
+              'se / padded / doubled. '
+              ' '
+              'Round 17: a certifier, re-signed by its own certifier, embedding another key wit'
+              'h the same x as the one its children were signed with. ')
 RULE = RULE + " " + RULE_ADDED.strip()
 ASSUMPTIONS = [
     "oracle: pv/oracle/certv1.py (own secp256k1 arithmetic, ECDSA by cryptography/OpenSSL); "
@@ -71,7 +74,9 @@ CORRUPTIONS = ["flip-message", "flip-signature", "flip-tweak", "flip-key", "swap
                "signature-trailing-byte", "flip-signature-structure",
                "flip-signature-structure", "certifier-key-with-extra-bytes",
                "certifier-key-with-extra-bytes", "extra-members", "extra-members",
-               "signed-by-the-untweaked-key", "signed-by-the-untweaked-key"]
+               "signed-by-the-untweaked-key", "signed-by-the-untweaked-key",
+               "certifier-key-with-the-same-x-and-parent-resigned",
+               "certifier-key-with-the-same-x-and-parent-resigned"]
 
 
 def shards(tier, seed):
@@ -159,6 +164,27 @@ def corrupt(rng, doc, info, kind):
         i = len(m) - 1 - rng.randrange(min(len(m), 33))
         m[i] ^= 1 << rng.randrange(8)
         el["message"] = bytes(m).hex()
+    elif kind == "certifier-key-with-the-same-x-and-parent-resigned":
+        # a certifier whose message - properly re-signed by ITS certifier - embeds another
+        # key than the one its children were signed with: the negated point (same x, the
+        # other y), or the same x with a y that is on no curve.  The children then fail,
+        # whatever was worked out about the original key earlier in this process.
+        cands = [n for n in els if any(e["signed_by"] == n for e in els.values())]
+        if not cands:
+            return None
+        name = rng.choice(cands)
+        el = els[name]
+        m = bytearray(bytes.fromhex(el["message"]))
+        y = int.from_bytes(m[-32:], "big")
+        P_ = 0xFFFFFFFFFFFFFFFFFFFFFFFFFFFFFFFFFFFFFFFFFFFFFFFFFFFFFFFEFFFFFC2F
+        y2 = (P_ - y) if rng.random() < 0.6 else (y ^ (1 << rng.randrange(250)))
+        m[-32:] = y2.to_bytes(32, "big")
+        el["message"] = bytes(m).hex()
+        p_ = info["parents"][name]
+        sk = info["root"] if p_ == "root" else info["keys"][p_]
+        if "tweak" in el:
+            sk = g.tweaked_key(sk, bytes.fromhex(el["tweak"]))
+        el["signature"] = g.sign(sk, bytes(m), rng).hex()
     elif kind == "swap-signatures":
         if len(els) < 2:
             return None
